@@ -451,49 +451,6 @@ out:
 }
 
 /* --------------------------------------------------- explicit-state exploration -- */
-/* all ordered trees with a given number of nodes over {int, string, object, array} */
-typedef struct { char **v; size_t n, cap; } strlist;
-static void sl_add(strlist *l, const char *s) { if (l->n == l->cap) { l->cap = l->cap ? l->cap * 2 : 64; l->v = (char **)realloc(l->v, l->cap * sizeof(char *)); } l->v[l->n++] = strdup(s); }
-static strlist TREES[10], FOREST[10];
-static const char *LEAVES = "is";
-static void build_lists(int maxn)
-{
-    sl_add(&FOREST[0], "");
-    for (int n = 1; n <= maxn; n++) {
-        if (n == 1) for (const char *q = LEAVES; *q; q++) { char t[2] = { *q, 0 }; sl_add(&TREES[1], t); }
-        for (size_t i = 0; i < FOREST[n - 1].n; i++) {
-            char tmp[64];
-            snprintf(tmp, sizeof tmp, "O%s)", FOREST[n - 1].v[i]); sl_add(&TREES[n], tmp);
-            snprintf(tmp, sizeof tmp, "A%s)", FOREST[n - 1].v[i]); sl_add(&TREES[n], tmp);
-        }
-        for (int k = 1; k <= n; k++)
-            for (size_t i = 0; i < TREES[k].n; i++)
-                for (size_t j = 0; j < FOREST[n - k].n; j++) {
-                    char tmp[64];
-                    snprintf(tmp, sizeof tmp, "%s%s", TREES[k].v[i], FOREST[n - k].v[j]); sl_add(&FOREST[n], tmp);
-                }
-    }
-}
-static vnode *parse_tree(const char **s, int *counter)
-{
-    char ch = *(*s)++;
-    vnode *n;
-    int id = (*counter)++;
-    if (ch == 'i') { n = vt_int((id * 37) % 3 == 0 ? 300 + id : id - 2); return n; }
-    if (ch == 's') { uint8_t d[3] = { (uint8_t)('p' + id % 5), 'q', 'r' }; return vt_str(K_STR, d, (uint32_t)(id % 4 == 3 ? 0 : 1 + id % 3)); }
-    if (ch == 'b') { vnode *b = vt_new(K_BOOL); b->b = id & 1; return b; }
-    n = vt_new(ch == 'O' ? K_OBJ : K_ARR);
-    int k = 0;
-    while (**s != ')') {
-        vnode *kid = parse_tree(s, counter);
-        if (ch == 'O') { uint8_t nm[2] = { (uint8_t)('b' + k), 'x' }; vt_setname(kid, nm, 2); }
-        vt_add(n, kid);
-        k++;
-    }
-    (*s)++;
-    return n;
-}
-
 #define XF 10
 typedef struct { vnode *root; int nf; bool started, done; uint16_t depth; vframe f[XF]; uint8_t mem[]; } xstate;
 static void x_pack(xstate *x, const vcur *m) { x->root = m->root; x->nf = m->nf; x->started = m->started; x->done = m->done; memcpy(x->f, m->f, sizeof(vframe) * (size_t)(m->nf < XF ? m->nf : XF)); }
@@ -518,7 +475,7 @@ static void explore_tree(const char *code, uint64_t caseno, char flavor, vrng *r
     wctx c; memset(&c, 0, sizeof c);
     c.r = r; c.flavor = flavor;
     const char *s = code; int counter = 0;
-    vnode *root = parse_tree(&s, &counter);
+    vnode *root = vt_from_code(&s, &counter);
     ctx_open(&c, root, 0);
     size_t msz = sizeof(binson_parser) + sizeof(binson_state) * (size_t)c.max_depth;
     size_t ssz = sizeof(xstate) + msz;
@@ -703,15 +660,14 @@ int main(int argc, char **argv)
     if (!strcmp(m, "c03") || !strcmp(m, "c10")) vcorpus_load(VA.repo);
     if (m[3] == 'x') {
         int maxn = atoi(VA.opt); if (maxn < 2) maxn = 5; if (maxn > 7) maxn = 7;
-        if (strstr(VA.opt, "noscalarstr")) LEAVES = "i";
-        build_lists(maxn);
+        vt_enum_build(maxn, strstr(VA.opt, "noscalarstr") ? "i" : "is");
         xs_cap = 1 << 12; xs_seen = (uint64_t *)calloc(xs_cap, 8);
         /* container-rooted trees only, dealt round-robin to the workers */
         uint64_t idx = 0;
         char flavor = m[2] == '6' ? '6' : (m[2] == '7' ? '7' : 'b');
         for (int n = 1; n <= maxn && !vw_stop(); n++)
-            for (size_t i = 0; i < TREES[n].n && !vw_stop(); i++) {
-                const char *code = TREES[n].v[i];
+            for (size_t i = 0; i < vt_enum[n].n && !vw_stop(); i++) {
+                const char *code = vt_enum[n].v[i];
                 if (code[0] != 'O' && code[0] != 'A') continue;
                 uint64_t my = idx++;
                 if (my % VA.nworkers != VA.wid) continue;
